@@ -99,7 +99,7 @@ def exception_signature(e: BaseException) -> str:
     return f"exception:{type(e).__name__}@{where}"
 
 
-def gfortran_check(files: dict, fixed=False, std="gnu", extra_stub: str | None = None):
+def gfortran_check(files: dict, fixed=False, std="gnu", extra_stub: str | None = None, extra_flags=()):
     """Compile the given sources with gfortran -fsyntax-only in dependency order as given.
     -> (ok, stderr)"""
     import subprocess
@@ -123,7 +123,7 @@ def gfortran_check(files: dict, fixed=False, std="gnu", extra_stub: str | None =
             progress = False
             for n in list(pending):
                 flags = ["-ffixed-form"] if (fixed or n.endswith((".f", ".for"))) else []
-                cmd = ["gfortran", "-fsyntax-only", f"-std={std}", *flags, "-J", str(d), n]
+                cmd = ["gfortran", "-fsyntax-only", f"-std={std}", *flags, *extra_flags, "-J", str(d), n]
                 p = subprocess.run(cmd, cwd=d, capture_output=True, text=True, timeout=120)
                 if p.returncode == 0:
                     pending.remove(n)
